@@ -90,9 +90,9 @@ func c12Setup() *c12State {
 		if bytes.Equal(k.VerifTag(), []byte("acct")) {
 			t := make([]byte, 4)
 			binary.BigEndian.PutUint32(t, i)
-			return hdkeychain.VerifOpaqueKey(t, false), nil
+			return hdkeychain.VerifOpaqueKey(t, k.IsPrivate()), nil
 		}
-		return hdkeychain.VerifOpaqueKey(c12Tag(binary.BigEndian.Uint32(k.VerifTag()), i), false), nil
+		return hdkeychain.VerifOpaqueKey(c12Tag(binary.BigEndian.Uint32(k.VerifTag()), i), k.IsPrivate()), nil
 	}
 	st.check = func(sh []byte) (bool, error) {
 		idx := binary.BigEndian.Uint32(sh[5:9])
@@ -210,4 +210,54 @@ func (km *KeystoreManager) NewKeystore(dbTransaction mwdb.DBTransaction, bitSize
 	name := "ac10cccccccccccccccccccccccccccccccccccccc"
 	km.managedKeystores[name] = &AddrManager{keystoreName: name, version: KeystoreVersionLatest, index: map[uint32]string{}, addrs: map[string]*ManagedAddress{}, acctInfo: &accountInfo{}, branchInfo: &branchInfo{}}
 	return name, "model mnemonic", nil
+}
+
+
+// VerifC04SigningKeyPath (property C04, second sentence, the keystore's part): an address is issued by the real
+// nextAddresses on either branch, from the public account key (locked) or from the private one (unlocked);
+// the key the real getPrivKeyBtcec derives for it when signing is the key at the same derivation path
+// (branch, index) under the private account key. Key derivation itself is cut to an injective tagging of the
+// path (one step of the real Child against BIP-32, and Neuter commuting with it, are C14).
+func VerifC04SigningKeyPath() {
+	st := c12Setup()
+	internal := rt.NondetBool()
+	if rt.NondetBool() {
+		st.am.acctInfo.acctKeyPriv = hdkeychain.VerifOpaqueKey([]byte("acct"), true)
+	}
+	var got []*ManagedAddress
+	err := mwdb.Update(st.db, func(tx mwdb.DBTransaction) error {
+		mas, e := st.am.nextAddresses(tx, st.check, internal, 1, st.G, config.ChainParams, 1, 0)
+		if e != nil {
+			return e
+		}
+		got = mas
+		return st.am.updateManagedAddress(tx, mas)
+	})
+	if err != nil || len(got) != 1 {
+		rt.Reach("end")
+		return
+	}
+	ma := got[0]
+	branch := uint32(ExternalBranch)
+	if internal {
+		branch = InternalBranch
+	}
+	rt.Assert(ma.derivationPath.Branch == branch, "issued-on-the-requested-branch")
+	want := c12Tag(branch, ma.derivationPath.Index)
+	rt.Assert(bytes.Equal(ma.scriptHash[1:], want), "address-commits-to-the-key-at-its-path")
+	// the private branch keys as the unlock path derives them: children of the private account key
+	root := hdkeychain.VerifOpaqueKey([]byte("acct"), true)
+	st.am.branchInfo.externalBranchPriv, _ = root.Child(ExternalBranch)
+	st.am.branchInfo.internalBranchPriv, _ = root.Child(InternalBranch)
+	priv, perr := st.am.getPrivKeyBtcec(ma.address, nil)
+	rt.Assert(perr == nil && priv != nil, "signing-key-derived")
+	if perr == nil && priv != nil {
+		rt.Assert(priv.D.Cmp(new(big.Int).SetBytes(want)) == 0, "signing-key-is-the-key-at-the-address-path")
+		again, _ := st.am.getPrivKeyBtcec(ma.address, nil)
+		rt.Assert(again == priv, "cached-signing-key-is-the-same")
+	}
+	_, nerr := st.am.getPrivKeyBtcec("no-such-address", nil)
+	rt.Assert(nerr == ErrAddressNotFound, "unknown-address-refused")
+	rt.Reach("derived")
+	rt.Reach("end")
 }
